@@ -41,8 +41,8 @@ EXHAUSTIVE = True
 
 
 def BOUNDS(tier):
-    return ["genes: toy, GA, cyp2d6 slice (1,2,4,10,13,36,68,5)"
-            + (", cyp2a6, cyp2c19, gstm1" if tier == "thorough" else ""),
+    return ["genes: toy, GA, GB, GD (first 8 alleles), cyp2d6 slice (1,2,4,10,13,36,68,5)"
+            + (", GC, cyp2a6, cyp2c19, gstm1" if tier == "thorough" else ""),
             "copies k in 0.." + ("4 (toy: 5)" if tier == "thorough" else "3 (toy: 4)"),
             "one novel functional variant may be added to any copy"]
 
@@ -59,8 +59,9 @@ SLICES = {
 
 def configs(tier):
     c = []
-    genes = ["toy", "GA", "cyp2d6"] + (["cyp2a6", "cyp2c19", "gstm1"]
-                                       if tier == "thorough" else [])
+    # GB / GC / GD have no tandem table (a different branch of the heuristic)
+    genes = ["toy", "GA", "GB", "GD", "cyp2d6"] + (["GC", "cyp2a6", "cyp2c19", "gstm1"]
+                                                   if tier == "thorough" else [])
     for g in genes:
         kmax = (4 if tier == "thorough" else 3) + (1 if g == "toy" else 0)
         for k in range(0, kmax + 1):
